@@ -107,10 +107,14 @@ class RealEv:
             raise Unsupported(ast.unparse(e))
         if isinstance(e, ast.Call) and ast.unparse(e.func) == "len" and len(e.args) == 1:
             return self.length(e.args[0])
+        if isinstance(e, ast.Subscript) and ast.unparse(e.value) == self.n["scan"] and not isinstance(e.slice, ast.Slice):
+            return ("node", self.index_of(e.slice))          # an entry of the row, kept symbolic
         if isinstance(e, ast.Subscript) and isinstance(e.slice, ast.Constant) and e.slice.value in (0, 1):
             inner_ = e.value                  # pos[NODE][0] / position[0]
             if isinstance(inner_, ast.Subscript) and ast.unparse(inner_.value) == self.n["pos"]:
                 node = inner_.slice
+                if isinstance(node, ast.Name) and isinstance(self.env.get(node.id), tuple) and self.env[node.id][0] == "node":
+                    return Lin.var("%s[%r]" % ("xy"[e.slice.value], self.env[node.id][1]))
                 if isinstance(node, ast.Subscript) and ast.unparse(node.value) == self.n["scan"]:
                     k = self.index_of(node.slice)
                     return Lin.var("%s[%r]" % ("xy"[e.slice.value], k))
@@ -308,6 +312,9 @@ def check_make_space(ctx, top):
                 else:
                     lim, rel = None, None
                     problems.append("the shift predicate `%s` does not compare the node's abscissa" % ast.unparse(cond))
+                bound_e = cond.comparators[0] if cl == xn else cond.left
+                if any(isinstance(x, ast.Name) and x.id == "pos" for x in ast.walk(bound_e)):
+                    problems.append("the bound `%s` is re-read from `pos` while the loop updates it: nodes visited after the limiting wire are compared with its new abscissa" % ast.unparse(bound_e))
                 if lim is not None:
                     if lim != limit_want:
                         problems.append("the half-plane is bounded by %r, the limiting wire is %r" % (lim, limit_want))
@@ -711,7 +718,11 @@ def check_diagramize(ctx):
     lp = next((s for s in nx2.body if isinstance(s, ast.For) and "enumerate(boxes)" in ast.unparse(s.iter)), None)
     ctx.need(lp is not None, "nx2diagram has no loop over the box nodes")
     rd = next((s for s in lp.body if isinstance(s, ast.Assign) and ast.unparse(s.targets[0]) == "offset" and "offset" in ast.unparse(s.value)), None)
-    ctx.need(rd is not None, "nx2diagram does not read the offset of a box node")
+    if rd is None:
+        anyw = [ast.unparse(s)[:70] for s in ast.walk(nx2) if isinstance(s, ast.Assign) and ast.unparse(s.targets[0]) == "offset"]
+        ctx.ob("R20.8", DR + ".nx2diagram:offset", False, found=anyw or "no assignment of offset", required="the offset of each box is set afresh at the top of its iteration (from the node's offset, or 0): a box applied "
+               "without inputs and without offset= must not inherit the offset of the previous box", mod=DR, node=lp, sig="none-offset")
+        return
     v = rd.value
     normalised = (isinstance(v, ast.BoolOp) and isinstance(v.op, ast.Or) and isinstance(v.values[-1], ast.Constant) and v.values[-1].value == 0) or \
         (isinstance(v, ast.IfExp) and "is None" in ast.unparse(v.test) or isinstance(v, ast.IfExp) and "is not None" in ast.unparse(v.test))
@@ -759,6 +770,13 @@ def check_diagramize(ctx):
     ok = len(ret) == 1 and ast.unparse(ret[0].value) == "untuplify(*outputs)"
     ctx.ob("R20.8", DR + ".diagramize.apply:result", ok, found=[ast.unparse(r) for r in ret], required="the call returns the cod nodes (one node or a tuple)", mod=DR, node=apply, sig="apply-result")
     dec = inner(ctx, dz, "decorator")
+    inl = next((l for l in dec.body if isinstance(l, ast.For) and ast.unparse(l.iter) == "enumerate(dom)"), None)
+    ctx.need(inl is not None, "diagramize does not create the input nodes in a loop over dom")
+    added_in = [shape.inline(c.args[0], inl.body) for c in ast.walk(inl) if isinstance(c, ast.Call) and ast.unparse(c.func) == "graph.add_node" and c.args]
+    iv_, ov_ = (t.id for t in inl.target.elts)
+    okin = len(added_in) == 1 and shape.key(shape.rename(added_in[0], {iv_: "i", ov_: "obj"})) == shape.key(shape.parse("Node('input', obj=obj, i=i)"))
+    ctx.ob("R20.8", DR + ".diagramize:input-nodes", okin, found=[ast.unparse(a) for a in added_in] or "input nodes enter the graph only through the first edge that uses them",
+           required="graph.add_node(Node('input', obj=obj, i=i)) in declaration order: nx2diagram reads the inputs in the order of graph.nodes", mod=DR, node=inl, sig="diagramize-inputs")
     fin = [ast.unparse(s.test) for s in ast.walk(dec) if isinstance(s, ast.If) and isinstance(s.body[-1], ast.Raise)]
     ctx.ob("R20.8", DR + ".diagramize:cod-check", "result.cod != cod" in fin, found=fin, required="a result whose codomain is not the declared one is refused", mod=DR, node=dec, sig="diagramize-cod")
 
